@@ -213,8 +213,11 @@ def join(rep, prog, g):
         try:
             it.call_body(key, [Ptr(Cell(Adt("range::Range", 0, (ListV(items),)))), Ptr(Cell(fm))])
         except Inconclusive as e:
-            # Display of an opaque alternative: route through the override
+            # Display for Range looks into its alternatives (the opaque abstraction does not apply): witness search on
+            # concrete alternatives; a mismatch is genuine, none found leaves the rule undecided
             rep.inconc("%s: %s" % (rule, e.reason), e.where)
+            if n == 3:
+                join_witness(rep, prog, key)
             continue
         txt = "".join(v if k == "lit" else "{%s}" % v.name for k, v in fm.out)
         want = "||".join("{alt%d}" % i for i in range(n))
@@ -236,6 +239,54 @@ def join(rep, prog, g):
             rep.ok(rule)
         else:
             rep.fail(rule, "%s|%s|n=%d" % (key, rule, n), "prints %r (expected %r); logical_or reads `||`: %s" % (txt, want, reads))
+
+
+def join_witness(rep, prog, key):
+    """Range's Display inspects the alternatives it prints. Search concrete ranges of two and three alternatives (nested,
+    overlapping, touching, disjoint; prerelease-tagged bounds included) for one whose printed form is not its alternatives in
+    order joined by `||`. An alternative left out or reordered changes what the text reads back as (a nested alternative with
+    a prerelease bound is the only one admitting the prereleases of its tuple; equality with the parsed range is lost)."""
+    from .. import minver
+    from ..interp import ok, UNIT
+    rule = "T-JOIN-WITNESS"
+    rep.rule(rule, 0, "witness search on concrete alternatives when Display for Range inspects what it prints")
+    env = intervals.Env(prog)
+    alts = minver.alternatives(minver.bound_universe(True))
+    tagged = [a for a in alts if (a[0][0] != "U" and a[0][1][3]) or (a[1][0] != "U" and a[1][1][3])]
+    cases = [[a, b] for a in alts[::3] for b in tagged[::2] if a != b]
+    cases += [[b, a] for a, b in cases[::4]]
+    cases += [[a, b, c] for a in alts[::11] for b in tagged[::7] for c in alts[5::13] if len({a, b, c}) == 3]
+    n = bad = 0
+    for case in cases:
+        R = minver.build_range(prog, env, case)
+        items = R.fields[0].items
+        fm = Formatter()
+
+        def disp(interp, args, info, items=items):
+            x = interp.strip(args[0])
+            idx = [i for i, y in enumerate(items) if y is x or y == x]
+            interp.load(args[1]).out.append(("tok", idx[0] if idx else "?"))
+            return ok(UNIT)
+        pol = minver.MinPolicy()
+        pol.witness = True
+        it = Interp(prog, pol, overrides={"<range::BoundSet as std::fmt::Display>::fmt": disp})
+        try:
+            it.call_body(key, [Ptr(Cell(R)), Ptr(Cell(fm))])
+        except (Inconclusive, Panic):
+            continue
+        n += 1
+        got = "".join(v if k == "lit" else "{%s}" % v for k, v in fm.out)
+        want = "||".join("{%d}" % i for i in range(len(case)))
+        if got == want:
+            rep.ok(rule)
+        else:
+            bad += 1
+            if bad <= 3:
+                text = "||".join(minver.alt_str(a) for a in case)
+                what = "an alternative is left out" if got.count("{") < want.count("{") else "text differs"
+                rep.fail(rule, "%s|%s|%s" % (key, rule, what),
+                         "the range `%s` prints its alternatives as %s (expected %s)" % (text, got, want), example=text)
+    rep.analysed_item("witness search: Display of %d concrete ranges with 2-3 alternatives, %d mismatches" % (n, bad))
 
 
 def numeric_range(rep, prog, g):
